@@ -93,7 +93,8 @@ func (s *sys) after(i int, p gate.Pos) []gate.Event {
 	} else {
 		pc, ok := pcOf[p.Point]
 		if !ok {
-			vh.Fatal("unknown hook point %d", p.Point)
+			// a hook point the model does not know (code under test was changed): still a well-defined position
+			pc = fmt.Sprintf("point%d", p.Point)
 		}
 		w.pc = pc
 	}
